@@ -78,11 +78,12 @@ MiscastClass(Q, E, D) == ~Aligned(Q, E, D, Call(Q, E, D, "asis"))
 Tup(v) == <<v.t, v.s, v.n>>
 TupRows(rows) == [r \in DOMAIN rows |-> [c \in DOMAIN rows[r] |-> Tup(rows[r][c])]]
 TupOut(o) == [res |-> o.res, rows |-> TupRows(o.rows)]
-Vector == [q |-> [j \in DOMAIN q |-> <<q[j].name, q[j].kind>>],
-           e |-> [c \in DOMAIN e |-> <<e[c].name, e[c].kind>>],
-           d |-> TupRows(d),
-           allowed |-> {TupOut(o) : o \in Allowed(q, e, d)},
-           asis |-> TupOut(Call(q, e, d, "asis")),
-           inclass |-> MiscastClass(q, e, d)]
+VectorOf(Q, E, D) == [q |-> [j \in DOMAIN Q |-> <<Q[j].name, Q[j].kind>>],
+                      e |-> [c \in DOMAIN E |-> <<E[c].name, E[c].kind>>],
+                      d |-> TupRows(D),
+                      allowed |-> {TupOut(o) : o \in Allowed(Q, E, D)},
+                      asis |-> TupOut(Call(Q, E, D, "asis")),
+                      inclass |-> MiscastClass(Q, E, D)]
+Vector == VectorOf(q, e, d)
 Export == (ExportOn /\ Served) => PrintT(ToJson(Vector))
 =============================================================================
